@@ -440,6 +440,39 @@ pub fn run_c13<C: NatCtx>(v: &mut Env<C>) {
     // malachite plaintext digits out of range (F3)
     check(v, "des_p", &[1, 0, 0, 0, 0, 1]);
     check(v, "des_svec_p", &[1, 0, 0, 0, 6, 0, 0, 0, 1, 0, 0, 0, 0, 1]);
+    // the shuffle verifier on decodable proofs with EVERY combination of the five vector lengths,
+    // N = 0, mismatched lists, wrong generator lists: a decision, never a panic
+    if v.small && (v.p == big(23) || v.p == big(7)) {
+        let sk = v.rnd_exp();
+        for nn in [1usize, 2] {
+            let s = p_shuffle::setup(v, &sk, nn, b"c13");
+            let perm: Vec<usize> = (0..nn).rev().collect();
+            let Some(h) = crate::p_c04::honest_full(v, &s, nn, &perm, b"x", nn) else { continue };
+            let g = v.g.clone();
+            let lens: Vec<usize> = (0..=nn + 1).collect();
+            let resize = |x: &[BigUint], len: usize, fill: &BigUint| -> Vec<BigUint> {
+                let mut o: Vec<BigUint> = x.iter().take(len).cloned().collect();
+                while o.len() < len { o.push(fill.clone()); }
+                o
+            };
+            for &a in &lens { for &b_ in &lens { for &c in &lens { for &d in &lens { for &e in &lens {
+                let mut m = h.pp.clone();
+                m.cs = resize(&m.cs, a, &g);
+                m.c_hats = resize(&m.c_hats, b_, &g);
+                m.t_hats = resize(&m.t_hats, c, &g);
+                m.s_hats = resize(&m.s_hats, d, &big(1));
+                m.s_primes = resize(&m.s_primes, e, &big(1));
+                let out = crate::p_c04::verify_case(v, &s, &s.gensv, &s.pkv, &m, &h.es, &h.eps, &h.label);
+                let tok = v.tok.clone();
+                v.h.check(out != Out::Panic, || format!("shuffle verifier panics on vector lengths cs={} c_hats={} t_hats={} s_hats={} s_primes={} on {} N={}", a, b_, c, d, e, tok, nn));
+            }}}}}
+            for (gens, es, eps) in [(s.gensv.clone(), vec![], vec![]), (vec![], h.es.clone(), h.eps.clone()), (s.gensv[..nn].to_vec(), h.es.clone(), h.eps.clone()), (s.gensv.clone(), h.es.clone(), h.eps[..nn - 1].to_vec()), (s.gensv.clone(), h.es[..nn - 1].to_vec(), h.eps.clone())] {
+                let out = crate::p_c04::verify_case(v, &s, &gens, &s.pkv, &h.pp, &es, &eps, &h.label);
+                let tok = v.tok.clone();
+                v.h.check(out != Out::Panic, || format!("shuffle verifier panics on a malformed statement on {} N={}", tok, nn));
+            }
+        }
+    }
     // sigma verifiers on arbitrary decodable proofs never panic (identity / boundary components)
     let ctx = v.ctx.clone();
     let zkp = strand::zkp::Zkp::new(&ctx);
